@@ -4,6 +4,7 @@ import (
 	"encoding/json"
 	"fmt"
 	"log"
+	"sync"
 )
 
 // Settings holds optional client settings.
@@ -12,6 +13,9 @@ type Settings struct {
 	assumePreAuthentication bool
 	preAuthEType            int32
 	logger                  *log.Logger
+	// mux guards assumePreAuthentication and preAuthEType, which the AS exchange updates while other
+	// goroutines using the same client read them.
+	mux sync.RWMutex
 }
 
 // jsonSettings is used when marshaling the Settings details to JSON format.
@@ -54,7 +58,30 @@ func AssumePreAuthentication(b bool) func(*Settings) {
 
 // AssumePreAuthentication indicates if the client should proactively assume using pre-authentication.
 func (s *Settings) AssumePreAuthentication() bool {
+	s.mux.RLock()
+	defer s.mux.RUnlock()
 	return s.assumePreAuthentication
+}
+
+// setAssumePreAuthentication records, during an AS exchange, that the KDC requires pre-authentication.
+func (s *Settings) setAssumePreAuthentication(b bool) {
+	s.mux.Lock()
+	defer s.mux.Unlock()
+	s.assumePreAuthentication = b
+}
+
+// negotiatedPreAuthEType returns the etype previously negotiated for pre-authentication (0 if none).
+func (s *Settings) negotiatedPreAuthEType() int32 {
+	s.mux.RLock()
+	defer s.mux.RUnlock()
+	return s.preAuthEType
+}
+
+// setNegotiatedPreAuthEType records the etype negotiated for pre-authentication.
+func (s *Settings) setNegotiatedPreAuthEType(et int32) {
+	s.mux.Lock()
+	defer s.mux.Unlock()
+	s.preAuthEType = et
 }
 
 // Logger used to configure client with a logger.
@@ -82,7 +109,7 @@ func (cl *Client) Log(format string, v ...interface{}) {
 func (s *Settings) JSON() (string, error) {
 	js := jsonSettings{
 		DisablePAFXFast:         s.disablePAFXFast,
-		AssumePreAuthentication: s.assumePreAuthentication,
+		AssumePreAuthentication: s.AssumePreAuthentication(),
 	}
 	b, err := json.MarshalIndent(js, "", "  ")
 	if err != nil {
